@@ -49,6 +49,8 @@ def match_known(known, prop, label, path):
     for kf in known.get("findings", []):
         if kf.get("property") != prop:
             continue
+        if not (kf.get("obligation") or kf.get("obligation_prefix")):
+            continue  # a finding of a bounded check: never matches an SMT obligation
         if kf.get("obligation") and kf["obligation"] != label:
             continue
         if kf.get("obligation_prefix") and not label.startswith(kf["obligation_prefix"]):
@@ -106,7 +108,8 @@ def run_property(prop, mod, tier="quick", seed=0, update_lock=False):
     locked = set(lock.get(prop, []))
     discharged = [k for k, e in mine.items() if e["discharged"] == e["instances"]]
     failed = {k: e for k, e in mine.items() if e["discharged"] != e["instances"]}
-    missing = sorted(locked - set(mine))
+    # an obligation that was discharged on the locked tree and is no longer generated is undecided (re-locking accepts the new set)
+    missing = [] if update_lock else sorted(locked - set(mine))
 
     # ---- triage of undischarged obligations
     os.makedirs(os.path.join(VERIF, "replays"), exist_ok=True)
@@ -155,8 +158,15 @@ def run_property(prop, mod, tier="quick", seed=0, update_lock=False):
     # ---- bounded stand-ins / native cross-checks
     bounded = []
     if hasattr(mod, "bounded"):
-        for b in mod.bounded(tier, seed):
+      for b in mod.bounded(tier, seed):
             bounded.append(b)
+            if b.get("known_seen"):
+                for k2 in known.get("findings", []):
+                    if k2.get("property") == prop and k2.get("bounded") == b["name"]:
+                        key = k2.get("id", k2.get("what"))
+                        if key not in seen_kf:
+                            seen_kf.add(key)
+                            pr.say(f"KNOWN-FINDING: property={prop} {k2['what']}")
             if b.get("violations"):
                 for v in b["violations"]:
                     kf = None
